@@ -111,6 +111,11 @@ def monitor(sc, res):
                     fails.append({"what": f"{desc} modified existing file {p!r}", "replay": sc})
                 if p not in ab and not (name == "ascmhl_chain.xml" or re.match(r"^\d{4,}_.*\.mhl$", name)):
                     fails.append({"what": f"{desc} left an extra file behind: {p!r}", "replay": sc})
+            for e in ev:
+                if e and e[0] in ("os.remove", "os.unlink", "remove", "unlink") and len(e) > 1 and isinstance(e[1], str):
+                    relp = os.path.relpath(e[1], root)
+                    if relp in ab and not relp.endswith(".tmp"):
+                        fails.append({"what": f"{desc} removed the existing file {relp!r} on the way (even if it puts a file of that name back afterwards)", "replay": sc})
             allowed = [os.path.join(root, h, "ascmhl") if h else os.path.join(root, "ascmhl") for h in wr]
             for e in ev:
                 paths = [os.path.normpath(x) for x in e[1:] if isinstance(x, str) and x.startswith("/")]
